@@ -130,9 +130,10 @@ def case_failures(seed, fmt=None):
     return uniq
 
 
-def db_failures(seed):
+def db_failures(seed, big=False):
     rnd = random.Random(seed)
-    cat = [mk_source(rnd, rnd.choice([ComponentSource, IslandSource, SimpleSource]), k) for k in range(rnd.randint(1, 10))]
+    n_rows = rnd.choice([617, 1234, 501]) if big else rnd.randint(1, 10)
+    cat = [mk_source(rnd, rnd.choice([ComponentSource, IslandSource, SimpleSource]) if not big else ComponentSource, k) for k in range(n_rows)]
     tmp = tempfile.mkdtemp(prefix="c18_")
     out = []
     try:
@@ -194,8 +195,18 @@ def crosscheck(p):
                 seen.add(lab)
                 failures.append({"label": lab, "input": {"db_seed": s0 + i}, "what": what, "replay_func": "replay_roundtrip",
                                  "replay_payload": {"db": [s0 + i]}})
+    evals += 1
+    try:
+        fl = db_failures(s0 + 7, big=True)
+    except Exception as e:
+        fl = [("harness_error", repr(e))]
+    for lab, what in fl:
+        if lab not in seen:
+            seen.add(lab)
+            failures.append({"label": lab, "input": {"db_seed": s0 + 7, "big": True}, "what": what, "replay_func": "replay_roundtrip",
+                             "replay_payload": {"db_big": [s0 + 7]}})
     return {"evaluations": evals, "failures": failures,
-            "rule": "random catalogues (1-12 rows of mixed ComponentSource / IslandSource / SimpleSource, NaN, -1, extreme magnitudes, "
+            "rule": "a 500+ row catalogue into sqlite; random catalogues (1-12 rows of mixed ComponentSource / IslandSource / SimpleSource, NaN, -1, extreme magnitudes, "
                     "uuids of varying length, atypical first row, with / without prefix and metadata) saved with save_catalog in "
                     "csv/tab/tex/vot/xml/fits, read with load_table + table_to_source_list and compared column by column (exact; "
                     "float32 for fits); sqlite rows compared with the sources"}
@@ -203,7 +214,11 @@ def crosscheck(p):
 
 def replay_roundtrip(p):
     bad = []
-    explicit = 'cases' in p or 'db' in p
+    explicit = 'cases' in p or 'db' in p or 'db_big' in p
+    for seed in p.get("db_big") or ([] if explicit else [7]):
+        fl = db_failures(seed, big=True)
+        if fl:
+            bad.append({"db_big": seed, "what": fl})
     for seed, fmt in p.get("cases") or ([] if explicit else [[i, FMTS[i % len(FMTS)]] for i in range(90)]):
         fl = case_failures(seed, fmt)
         if fl:
@@ -215,4 +230,4 @@ def replay_roundtrip(p):
             bad.append({"db": seed, "what": fl})
             break
     return {"fails": bool(bad), "observed": bad, "replay_func": "replay_roundtrip",
-            "replay_payload": {"cases": [b["case"] for b in bad if "case" in b], "db": [b["db"] for b in bad if "db" in b]}}
+            "replay_payload": {"cases": [b["case"] for b in bad if "case" in b], "db": [b["db"] for b in bad if "db" in b], "db_big": [b["db_big"] for b in bad if "db_big" in b]}}
